@@ -11,7 +11,7 @@ RULE = ('HIST histories in all configurations (biased to duplicate PVDs, level 4
         'recovered tree+contents are compared with the model and the API view; non-trivial: >= 3 accepted edits and >= 1 write; '
         'distinct = distinct model shape fingerprints')
 BUDGET = {'quick': 40, 'thorough': 900}
-PROBES = ['decoded_images', 'dir_multi_sector', 'path_table_gt_2048', 'dup_pvd_decoded', 'xa_decoded', 'enhanced_decoded']
+PROBES = ['decoded_images', 'api_vs_decoder_compared', 'dir_multi_sector', 'path_table_gt_2048', 'dup_pvd_decoded', 'xa_decoded', 'enhanced_decoded']
 ASSUMPTIONS = ['isosim/dec_iso.py implements ECMA-119 as written down in DESIGN.md Appendix A (self-tested on hand-assembled sectors)']
 
 PROFILE = H.Profile('c03', nops=(3, 24), weights={'dup_pvd': 2, 'add_dir': 22, 'mass_dirs': 2}, final_restart=True)
@@ -47,6 +47,29 @@ class C03(H.Oracle):
         if mm:
             ns, kind, path, ev, ov = mm[0]
             ctx.violate(('decoded-view',) + O.mismatch_sig(mm[0]), 'path=%r expected=%r decoded=%r (+%d more)' % (path, ev, ov, len(mm) - 1))
+            return
+        self.last = (img, data)
+
+    def on_reopen(self, ctx):
+        # "The tree and file contents recovered that way equal what the library API reports for the same image"
+        if getattr(self, 'last', None) is None:
+            return
+        img, data = self.last
+        self.last = None
+        d = ctx.d
+        try:
+            view, anomalies = O.api_view(d.iso, d.model, d.pexc)
+        except Exception as e:
+            ctx.status = 'inconclusive'
+            ctx.note = 'api view raised %r' % (e,)
+            return
+        ctx.probes['api_vs_decoder_compared'] += 1
+        api = {ns: {p: (e if ns != 'iso' or e[2] is not None or e[0] == 'dir' else (e[0], e[1], ('empty',))) for p, e in view[ns].items()}
+               for ns in ('iso', 'joliet') if ns in view}
+        dec = {ns: decview.iso_view(img, data, d.model, ns) for ns in api}
+        mm = O.compare_views(api, dec)
+        if mm:
+            ctx.violate(('api-vs-decoder',) + O.mismatch_sig(mm[0]), 'path=%r api=%r decoded=%r (+%d more)' % (mm[0][2], mm[0][3], mm[0][4], len(mm) - 1))
 
 
 def generate(seed, tier='quick'):
